@@ -7,3 +7,8 @@ pub(crate) mod c12 {
     use super::super::*;
     include!(concat!(env!("LIBP2P_VERIF"), "/units/C12/external.rs"));
 }
+
+// K-fragment unit on stand-in types (own module: the local `Multiaddr`, `FromSwarm`, ... shadow nothing outside it)
+pub(crate) mod c12x {
+    include!(concat!(env!("LIBP2P_VERIF"), "/units/C12/external_model.rs"));
+}
